@@ -485,6 +485,15 @@ func (c *Ctx) forwarderExitArm(rule string, fwd *ssa.Function) {
 	if os.Getenv("JRP_DEBUG") == "exitarm" {
 		fmt.Fprintf(os.Stderr, "exitarm: idx=%d n=%d decidable=%v again=%v found=%v truth=%d\n", exitIdx, n, decidable, again, s.found, len(truthOf))
 	}
+	// … and starts nothing that outlives the connection on the way out
+	s2 := &ipSearch{p: p, flat: true, seen: map[string]bool{}, factSeen: map[string][]*factSet{},
+		target: func(in ssa.Instruction) bool { _, isGo := in.(*ssa.Go); return isGo },
+		avoid:  isReturn, edgeOK: s.edgeOK}
+	if s2.scanF(sel.Block(), instrIndex(sel)+1, nil, nil) {
+		c.bad(rule, construct+" (no goroutine left behind)", c.ipos(s2.found), "on its way out (exit signal closed) the forwarding goroutine starts another goroutine — e.g. one per registered channel that drains it until the handler closes it: a streaming handler that just returns on cancellation never closes its channel, so that goroutine stays blocked for ever after the connection is gone")
+	} else {
+		c.ok(rule, construct+" (no goroutine left behind)", c.ipos(sel), "no go statement on the exit path")
+	}
 	c.check(!again, rule, construct, c.ipos(sel), "on the closed exit signal every path returns before the next select",
 		"after the exit signal fired (channel closed) the forwarding goroutine can go back to its select: it then lives until every handler has closed its channel — a streaming handler that just returns on cancellation keeps the goroutine and the whole connection object alive for ever")
 	_ = n
